@@ -160,15 +160,44 @@ SameBag(xs, ys) ==
        Cardinality({j \in 1..Len(xs) : xs[j] = xs[i]}) = Cardinality({j \in 1..Len(ys) : ys[j] = xs[i]})
 
 -----------------------------------------------------------------------------
-(* C11: Cut(v, d) -- a node nested in k containers is printed in full iff     *)
-(* k < d, otherwise it is its type's placeholder <<"ph", kind>>.              *)
-Kind(v) == IF v[1] = "dictany" THEN "dict" ELSE IF v[1] = "sub" THEN v[2] ELSE v[1]
-RECURSIVE Cut(_, _)
-Cut(v, d) ==
-  IF d <= 0 THEN (IF v[1] \in {"bool", "none", "ellipsis"} THEN v ELSE <<"ph", Kind(v)>>)
-  ELSE CASE v[1] \in {"list", "tuple", "set", "frozenset"} ->
-              <<v[1], [i \in 1..Len(v[2]) |-> Cut(v[2][i], d - 1)]>>
+(* C11: CutSyn(v, d, re, rk) -- the SYNTAX the output must have when depth = d:  *)
+(* a node nested in k containers is printed in full iff k < d, otherwise it is   *)
+(* the placeholder of its type.  (How the placeholders parse: "[...]" is a list  *)
+(* holding Ellipsis, "(...)" is a parenthesised Ellipsis, "{...}" a set holding  *)
+(* Ellipsis, "set(...)", "int(...)", "str(...)" ... are calls on Ellipsis.)      *)
+(* re / rk switch on the two recorded deviations of the code:                    *)
+(*   re: an EMPTY container at the cut level is printed in full ("[]")           *)
+(*   rk: a str/bytes dict KEY is printed with the dict's own context, i.e. in    *)
+(*       full at the cut level                                                   *)
+ELL == <<"ellipsis">>
+PhCall(name) == <<"call", name, <<ELL>>, <<>>>>
+Placeholder(v) ==
+  CASE v[1] = "list" -> <<"list", <<ELL>>>>
+    [] v[1] = "tuple" -> ELL
+    [] v[1] \in {"dict", "dictany"} -> <<"set", <<ELL>>>>
+    [] v[1] \in {"set", "frozenset", "int", "float", "str", "bytes"} -> PhCall(v[1])
+    [] OTHER -> v                       \* bool / None have no depth check
+
+\* (only list and tuple printers test emptiness before the depth)
+IsEmptyContainer(v) == v[1] \in {"list", "tuple"} /\ Len(v[2]) = 0
+
+RECURSIVE CutSyn(_, _, _, _)
+SynEmpty(v) == CASE v[1] = "set" -> <<"call", "set", <<>>, <<>>>>
+                 [] v[1] = "frozenset" -> <<"call", "frozenset", <<>>, <<>>>>
+                 [] OTHER -> <<(IF v[1] = "dictany" THEN "dict" ELSE v[1]), <<>>>>
+CutSyn(v, d, re, rk) ==
+  IF d <= 0 /\ ~(re /\ IsEmptyContainer(v)) THEN Placeholder(v)
+  ELSE CASE v[1] \in {"list", "tuple", "set"} ->
+              IF Len(v[2]) = 0 THEN SynEmpty(v)
+              ELSE <<v[1], [i \in 1..Len(v[2]) |-> CutSyn(v[2][i], d - 1, re, rk)]>>
+         [] v[1] = "frozenset" ->
+              IF Len(v[2]) = 0 THEN SynEmpty(v)
+              ELSE <<"call", "frozenset",
+                     << <<"list", [i \in 1..Len(v[2]) |-> CutSyn(v[2][i], d - 1, re, rk)]>> >>, <<>>>>
          [] v[1] \in {"dict", "dictany"} ->
-              <<v[1], [i \in 1..Len(v[2]) |-> <<Cut(v[2][i][1], d - 1), Cut(v[2][i][2], d - 1)>>]>>
+              <<"dict", [i \in 1..Len(v[2]) |->
+                          <<IF rk /\ v[2][i][1][1] \in {"str", "bytes"} THEN v[2][i][1]
+                            ELSE CutSyn(v[2][i][1], d - 1, re, rk),
+                            CutSyn(v[2][i][2], d - 1, re, rk)>>]>>
          [] OTHER -> v
 =============================================================================
